@@ -163,6 +163,7 @@ class Contract:
         self.property = spec.pop("prop", None)
         self.configs = spec.pop("configs", None)        # list of dicts of concrete param overrides
         self.post_hook = spec.pop("post_hook", None)
+        self.hidden = set(spec.pop("hidden", []))       # indices of ensures NOT assumed at call sites unless reveal()ed (opaque/reveal)
         self.lemmas = list(spec.pop("lemmas", []))      # [(lemma name, param names...)] instantiated before the ensures are checked
         self.effects = spec.pop("effects", None)        # callable(interp, env): havoc what the call modifies (before ensures are assumed)
         self.variant = spec.pop("variant", None)
@@ -328,7 +329,10 @@ class Registry:
             return res
         env2 = dict(env)
         env2["result"] = res
-        for e in c.ensures:
+        revealed = c.label in ctx.ghost.get("revealed", ())
+        for j, e in enumerate(c.ensures):
+            if j in c.hidden and not revealed:
+                continue
             g = sym.truth(self.eval_clause(interp, e, c, env2))
             if pre is not None:
                 g = z3.Implies(pre, g)
@@ -397,7 +401,9 @@ class Registry:
             pre += [z3.Not(sym.truth(self.eval_clause(interp, cond, c, env))) for cond, _ in c.raises]
             env2 = dict(env)
             env2["result"] = res
-            post = [sym.truth(self.eval_clause(interp, e, c, env2)) for e in c.ensures]
+            revealed = c.label in ctx.ghost.get("revealed", ())
+            post = [sym.truth(self.eval_clause(interp, e, c, env2)) for j, e in enumerate(c.ensures)
+                    if revealed or j not in c.hidden]
             side = ctx.pc
         finally:
             ctx.pc = saved
